@@ -248,8 +248,7 @@ CHECKS = [
                 "its documented sequence incl. exhaustion and recycling.",
         "note": "Trusts vf.vt (kitty placements persist until deleted; konsole treats iTerm2 images as placements), "
                 "urwid 2.6.16 and its canvas cache; after an explicit clear_images() only left-over images are judged "
-                "while the very same canvas object is drawn again (urwid skips such a draw); known finding "
-                "C18-disguise-states-cancel-after-repeated-clear-images is excluded by signature and reported.",
+                "while the very same canvas object is drawn again (urwid skips such a draw).",
     },
     {
         "property_id": "C11",
